@@ -384,11 +384,11 @@ static double rnd_a(vt::Rng& g) { static const double A[] = {1, 6378137, 4194304
 static AuxAngle rnd_ang(vt::Rng& g) {
   int w = int(g.range(0, 15)); double t;
   if (w < 7) t = tan(g.uni(0, 1.5707963267948966));
-  else if (w < 10) t = ldexp(g.uni(1, 2), int(g.range(-800, 550)));
+  else if (w < 10) t = ldexp(g.uni(1, 2), int(g.range(-800, 500)));
   else if (w == 10) t = ldexp(g.uni(1, 2), int(g.range(-60, 60)));
   else if (w == 11) t = 1 + g.uni(-1e-6, 1e-6);
   else if (w == 12) t = ldexp(g.uni(1, 2), int(g.range(-800, -700)));      // denormal tangents (the last 24 binades: 'den' records)
-  else if (w == 13) t = ldexp(g.uni(1, 2), int(g.range(450, 550)));       // beyond 2^800: 'den' records
+  else if (w == 13) t = ldexp(g.uni(1, 2), int(g.range(400, 500)));       // beyond 2^800: 'den' records
   else t = tan(g.uni(1.5, 1.5707963267948966));
   if (g.coin()) t = -t;
   if (g.range(0, 3) == 0 && fabs(t) > 1e-270 && fabs(t) < 1e270) { double x = ldexp(g.uni(1, 2), int(g.range(-30, 30))); return AuxAngle(t * x, x); }
@@ -898,7 +898,7 @@ static void rec_den(vt::Rng& g) {
   int w = int(g.range(0, 3));
   if (w == 0) { int e = int(g.range(-1074, -1040)); t = ldexp(g.coin() ? 1.0 : g.uni(1, 2), e); if (t == 0) t = ldexp(1.0, -1074); }
   else if (w == 1) t = ldexp(g.uni(1, 2), int(g.range(-1040, -800)));
-  else if (w == 2) t = ldexp(g.uni(1, 2), int(g.range(550, 800)));
+  else if (w == 2) t = ldexp(g.uni(1, 2), int(g.range(500, 800)));
   else t = ldexp(g.uni(1, 2), int(g.range(800, 1023)));
   if (g.coin()) t = -t;
   AuxAngle z(t, 1.0), o = C.aux.Convert(a, b, z, m != 0);
